@@ -27,6 +27,7 @@ ASSUMPTIONS = ["levels are properly nested and aligned on an even blocking facto
 def run_case(ctx):
     src = ctx.src
     common.draw_env(ctx)
+    common.prelude(ctx)
     m = world.gen_mesh(src, tag="w", force_3d=True, max_levels=4, max_boxes=20)
     names = world.gen_fields(src, tag="w", nmax=4)
     has_vf = bool(src.draw("volfrac.field", 0, 1))
